@@ -239,8 +239,11 @@ class Delete(AbstractCommand):
     def can_execute(self):
         self.feature = self.owner.eContainmentFeature()
         self.references = {}
-        elements = {self.owner}
-        elements.update(self.owner.eAllContents())
+        # in containment order, every container before what it contains: undo
+        # walks them in this order, and a container that restores its
+        # children first gets them back in the order they had
+        elements = [self.owner]
+        elements.extend(self.owner.eAllContents())
         for element in elements:
             rels_tuple = [(ref, list(element.eGet(ref)) if ref.many
                            else element.eGet(ref))
